@@ -144,7 +144,10 @@ def execute(ctx, batches_by_mode, seed):
         pp, op = os.path.join(d, "plan.json"), os.path.join(d, "obs.ndjson")
         with open(pp, "w") as fh:
             json.dump(plan, fh)
-        p = ctx.run_worker(["term-run", pp, op], testing=mode, timeout=3000, check=False)
+        # the go-test mode runs in a REAL, coverage-instrumented go test binary of the worker: such a
+        # process is "under go test" for every means of detection (argv, package testing, cover mode)
+        p = ctx.run_worker(["term-run", pp, op], testing=mode, timeout=3000, check=False,
+                           testbin=("cover" if mode else None))
         if p.returncode != 0:
             raise Undecided("term-run (testing=%s) failed rc=%s\n%s\n%s" % (mode, p.returncode, p.stdout[-2000:], p.stderr[-3000:]))
         info = json.loads(p.stdout.strip().splitlines()[-1])
